@@ -285,7 +285,7 @@ def oracle_show(impl_lines):
                         bytes.fromhex(sh if sh != "-" else ""), bytes.fromhex(shs if shs != "-" else ""))))
                     continue
                 texts = bytes.fromhex(sh if sh != "-" else "").split(b"\n")
-                t = last[2:].split()[3:]
+                t = last[2:].split()[4:]
                 i, k = 0, 0
                 while i < len(t):
                     tag = t[i]
@@ -563,8 +563,17 @@ def oracle_c18(impl_lines):
     cases, order = vc.split_cases(impl_lines)
     for cid in order:
         wantcs, wantd, ws = None, None, []
+        wantlk = None
         src = ""
         for l in cases[cid]:
+            if l.startswith("> # WANTLK "):
+                wantlk = l.split()[3]
+            elif l.startswith("> M lookup"):
+                src = l
+            elif l.startswith("LK ") and wantlk is not None:
+                if l.split()[1] != wantlk:
+                    fails.append((cid, "%s looks up to %s, the standard says %s (only the bytes of the view count)" % (src[2:], l.split()[1], wantlk)))
+                wantlk = None
             if l.startswith("> # WANTCS "):
                 wantcs = int(l.split()[3])
             elif l.startswith("> # WANTDESIG "):
@@ -643,6 +652,7 @@ def oracle_strobj(impl_lines):
 
     for cid in order:
         st = {}
+        sheld = {}
         pend, got, zs, ts = None, [], None, None
 
         def finish():
@@ -708,6 +718,10 @@ def oracle_strobj(impl_lines):
                         i = int(t[3]); st[k] = st[k][:i] + elems(t, 4, 1) + st[k][i + 1:]
                     elif op == "swap":
                         st[k], st[t[3]] = st[t[3]], st[k]
+                    elif op == "hold":
+                        sheld[k] = int(t[3])
+                    elif op == "heldset":
+                        i = sheld[k]; st[k] = st[k][:i] + elems(t, 4, 1) + st[k][i + 1:]
                     elif op == "dump":
                         pend = k
                 except (KeyError, IndexError, ValueError):
